@@ -197,9 +197,12 @@ def run(pid, tier):
     cfgs = doc["cfgs"]
     items = []
     flip_cfgs = cfgs[:2] + cfgs[-1:] if quick else cfgs
-    life_cfgs = [cfgs[0], cfgs[2], cfgs[3], cfgs[4]]
+    # the full life-cycle matrix: quick on 4 configurations (both styles, 3 seeds, 3 networks), thorough on
+    # 12 of the 18 (one network dropped per style x seed, rotating); the id families on all selected ones
+    life_cfgs = [cfgs[0], cfgs[2], cfgs[3], cfgs[4]] if quick else \
+        [c for c in cfgs if (c - 1) % 3 != ((c - 1) // 3) % 3]
     for s in doc["scripts"]:
-        use = flip_cfgs if s["fam"].startswith("flip") else (life_cfgs if quick else cfgs)
+        use = flip_cfgs if s["fam"] != "low" else life_cfgs
         items += [(ci, s) for ci in use]
     nsim, depth = (6, 40) if quick else (40, 60)
     sims = 0
